@@ -81,12 +81,23 @@ def run(ctx):
                         {"name": "p", "ops": [{"op": "barrier", "name": "go", "parties": 3}, {"op": "connect", "sock": "push", "ep": "$ep"}, {"op": "connect", "sock": "push", "ep": "$lep"},
                                              {"op": "sleep", "ms": 300}, {"op": "send_n", "sock": "push", "prefix": "a", "n": 200, "sizes": [200], "pace_us": 2000, "max_errs": 3}]}]}
     scs.append(silent)
+    # several tasks wait in send() for the first peer: all of them proceed once it has connected
+    for ty in ["PUSH", "REQ"]:
+        waiters = {"name": "fan-waiters-%s-tcp" % ty.lower(), "deadline_ms": 30000,
+                   "sockets": [{"name": "push", "type": ty, "opts": [S.i32(S.SNDTIMEO, 4000)]}, {"name": "pull0", "type": "PULL" if ty == "PUSH" else "ROUTER", "opts": []}],
+                   "tasks": [{"name": "r", "ops": [{"op": "barrier", "name": "go", "parties": 4 if ty == "PUSH" else 2}, {"op": "sleep", "ms": 500}, {"op": "mark", "name": "peer_appears"},
+                                                  {"op": "bind", "sock": "pull0", "ep": "tcp://127.0.0.1:0", "save": "ep2"}, {"op": "connect", "sock": "push", "ep": "$ep2"},
+                                                  {"op": "recv_n", "sock": "pull0", "n": 4, "timeout_ms": 2500, "multipart": ty != "PUSH"}]}]}
+        for j in range(3 if ty == "PUSH" else 1):
+            waiters["tasks"].append({"name": "s%d" % j, "ops": [{"op": "barrier", "name": "go", "parties": 4 if ty == "PUSH" else 2},
+                                                                {"op": "send", "sock": "push", "mid": "w%d:1" % j, "size": 100}]})
+        scs.append(waiters)
     res = S.run_scenarios(ctx, scs, "c13", timeout=1500)
     runs = []
     for sc, r0 in zip(scs, res):
         pulls = [s["name"] for s in sc["sockets"] if s["type"] == "PULL"]
         ev = S.history_to_delivery_trace(r0, ["push"], pulls)
-        if "stalled" in sc["name"] or "leave" in sc["name"] or "silent" in sc["name"]:
+        if "stalled" in sc["name"] or "leave" in sc["name"] or "silent" in sc["name"] or "waiters" in sc["name"]:
             ev = [e for e in ev if e["e"] != "quiesce"]       # messages parked at a stalled / departed peer are not lost
         rp = {"kind": "recorded-trace", "scenario": sc, "hung": r0["hung"], "panics": r0["panics"]}
         runs.append((sc["name"], ev, rp))
@@ -105,6 +116,14 @@ def run(ctx):
             if worst > 4000 or r0["hung"]:
                 ctx.violation("C13:waits-on-full-peer", "%s: send() waited %d ms on a peer whose queue is full while other peers had room%s" % (
                     sc["name"], worst, "; hung: %s" % r0["hung"] if r0["hung"] else ""), rp)
+        if "fan-waiters" in sc["name"]:
+            t_peer = next((x["t"] for x in r0["records"] if x.get("ev") == "mark" and x.get("name") == "peer_appears"), 0)
+            sends = [x for x in r0["records"] if x.get("ev") == "ret" and x.get("op") == "send" and x.get("sock") == "push"]
+            late = [x for x in sends if x.get("res") != "ok" or x["t"] - t_peer > 1500]
+            if late or len(sends) < len(sc["tasks"]) - 1 or r0["hung"]:
+                ctx.violation("C13:waiting-send-not-released", "%s: %d task(s) were waiting in send() for a first peer; after it connected: %s%s" % (
+                    sc["name"], len(sc["tasks"]) - 1, [(x.get("res"), "%d ms after the peer" % (x["t"] - t_peer)) for x in sends], "; hung: %s" % r0["hung"] if r0["hung"] else ""), rp)
+            continue
         if "silent-endpoint" in sc["name"]:
             if sent_ok and sum(got.values()) < sent_ok:
                 ctx.violation("C13:handed-to-unconnected-peer", "%s: %d messages were accepted, the only peer that completed the ZMTP handshake received %d: the rest was handed to a connection whose handshake never completed" % (
